@@ -89,7 +89,16 @@ def build(ctx, v, t):
         cls = import_class(decl.target)
         o = object.__new__(cls)
         for f, x in fields.items():
-            setattr(o, f, x)
+            try:
+                setattr(o, f, x)
+            except AttributeError:
+                # read-only property of the real class: shadow it on a per-object subclass
+                sub = type(cls.__name__, (type(o),), {f: x})
+                o.__class__ = sub
+                try:
+                    object.__setattr__(o, "_" + f, x)  # the usual backing field of such a property
+                except Exception:
+                    pass
         return o
     if isinstance(t, S._RngT):
         from replay.stubs import ScriptedRng
